@@ -26,7 +26,7 @@ ASSUMPTIONS = ["RLIMIT_FSIZE stands in for a full file system and applies to eve
                "targeted file the largest one (values: 64 KB of data; indices: 8192 one-element subarrays = 128 KB of index rows)",
                "overflow = the end index of an appended subarray does not fit the index type"]
 EXHAUSTIVE = "the F-fsize grid for the values file and for the indices file"
-KINDS = ['raise', 'badatom', 'badrank', 'unconv', 'overflow']
+KINDS = ['raise', 'badatom', 'badrank', 'unconv', 'overflow', 'numstr', 'bare-scalar']
 MUST_HIT = ['iter:inside-open-context'] + ['iter:' + k for k in KINDS] + ['iter:append', 'iter:iterappend', 'iter:empty-start', 'iter:p=0', 'iter:p>0',
                                              'fsize:values', 'fsize:indices', 'fsize:loud', 'fsize:silent', 'fsize:mid-row', 'fsize:on-boundary']
 IDXMAX = {'int8': 127, 'uint8': 255, 'int16': 32767}
@@ -60,6 +60,10 @@ def bad_item(kind, dt, atom):
         return np.zeros((2,) + atom + (2,), dtype=dt)
     if kind == 'unconv':
         return [['x', 'y']] if atom else ['x']
+    if kind == 'numstr':
+        return '12'          # converts to ONE number although len('12') == 2: not an item with a first axis
+    if kind == 'bare-scalar':
+        return 7
     raise ValueError(kind)
 
 
